@@ -38,7 +38,7 @@ VALUES = [
     ("null", "null", None), ("i0", "0", cI(0)), ("i1", "1", cI(1)), ("i5", "5", cI(5)), ("ineg", "(-1)", cI(-1)), ("i6", "6", cI(6)),
     ("ibig1", "((2^70+1)-2^70)", cI(1)), ("ihuge", "(2^70)", cI(2 ** 70)),
     ("f1", "1.0", cF(1.0)), ("f15", "1.5", cF(1.5)), ("q12", "(1/2)", cQ(Fraction(1, 2))), ("q34", "(3/4)", cQ(Fraction(3, 4))),
-    ("sx", '"x"', ["s", "x"]), ("s0", '""', ["s", ""]), ("sab", '"ab"', ["s", "ab"]),
+    ("sx", '"x"', ["s", "x"]), ("s0", '""', ["s", ""]), ("sab", '"ab"', ["s", "ab"]), ("su", '"é!"', ["s", "é!"]),
     ("l0", "[]", L()), ("l1", "[1]", L(cI(1))), ("l12", "[1, 2]", L(cI(1), cI(2))), ("l123", "[1, 2, 3]", L(cI(1), cI(2), cI(3))),
     ("l1234", "[1, 2, 3, 4]", L(cI(1), cI(2), cI(3), cI(4))), ("ln1", "[1, [2, 3]]", L(cI(1), L(cI(2), cI(3)))),
     ("ln2", "[[1, 2], 3]", L(L(cI(1), cI(2)), cI(3))), ("lx2", '["x", 2]', L(["s", "x"], cI(2))), ("lnull", "[null, 2]", L(None, cI(2))),
@@ -490,7 +490,13 @@ def pattern_pool(tier):
     # or / and
     pats += [("or", ("lit", cI(1), "1"), ("lit", cI(5), "5")), ("or", ("lit", cI(1), "1"), N(0)), ("or", ("seq", [N(0), N(1)], "comma"), N(2)),
              ("or", ("ann", N(0), "int"), ("ann", N(1), "str")), ("and", N(0), N(1)), ("and", N(0), ("seq", [N(1), N(2)], "comma")),
-             ("and", ("ann", N(0), "list"), ("seq", [N(1), ("splat", "r")], "comma")), ("or", ("seq", [N(0)], "comma"), ("seq", [N(0), ("_",)], "comma"))]
+             ("and", ("ann", N(0), "list"), ("seq", [N(1), ("splat", "r")], "comma")), ("or", ("seq", [N(0)], "comma"), ("seq", [N(0), ("_",)], "comma")),
+             # alternatives that share a name, the first of which binds it before it fails (a failed alternative leaves nothing behind)
+             ("or", ("seq", [N(0), ("lit", cI(1), "1")], "comma"), ("seq", [N(0), ("lit", cI(2), "2")], "comma")),
+             ("or", ("seq", [N(0), ("ann", N(1), "str")], "comma"), ("seq", [N(0), N(1)], "comma")),
+             ("or", ("seq", [N(0), ("lit", cI(9), "9")], "bracket"), N(0)), ("or", ("and", N(0), ("lit", cI(5), "5")), ("and", N(0), N(1))),
+             ("or", ("struct", "P", [N(0), ("lit", cI(9), "9")]), ("struct", "P", [N(0), N(1)])),
+             ("or", ("or", ("seq", [N(0), ("lit", cI(8), "8")], "comma"), ("seq", [N(0), ("lit", cI(9), "9")], "comma")), ("seq", [N(0), N(1)], "comma"))]
     # struct patterns
     pats += [("struct", "P", [N(0), N(1)]), ("struct", "P", [N(0), ("lit", cI(2), "2")]), ("struct", "P", [N(0)]), ("struct", "Q", [N(0)]),
              ("struct", "P", [N(0), ("seq", [N(1), N(2)], "comma")]), ("struct", "P", [("_",), ("_",)])]
@@ -502,7 +508,10 @@ def pattern_pool(tier):
     return pats
 
 
-CONTEXTS = ["declare", "assign", "lambda", "for", "switch", "catch"]
+CONTEXTS = ["declare", "assign", "lambda", "for", "switch", "catch",
+            # the scoped contexts again with every name of the pattern already declared in the enclosing scope: the construct's own
+            # scope shadows them, binding works exactly as before
+            "lambda_s", "for_s", "switch_s", "catch_s"]
 
 
 def result_expr(names):
@@ -511,6 +520,8 @@ def result_expr(names):
 
 def program(ctx, pat, vsrc):
     names = names_of(pat)
+    if ctx.endswith("_s"):
+        return "".join('%s := "PRE"; ' % n for n in names) + program(ctx[:-2], pat, vsrc)
     res = result_expr(names)
     if ctx == "declare":
         if pat[0] == "annparts":       # an annotated group declares with `=`
@@ -536,6 +547,9 @@ def expected(ctx, pat, vcanon):
     if m == NA:
         return NA
     names = names_of(pat)
+    shadow = ctx.endswith("_s")
+    if shadow:
+        ctx = ctx[:-2]
     if m == FAIL:
         if ctx == "switch":
             return ("value", ["s", "NOMATCH"])
@@ -547,7 +561,7 @@ def expected(ctx, pat, vcanon):
         if n in m:
             vals.append(m[n])
         else:
-            vals.append(["s", "U0"] if ctx == "assign" else ["s", "U"])
+            vals.append(["s", "U0"] if ctx == "assign" else ["s", "PRE"] if shadow else ["s", "U"])
     res = ["l", vals]
     if ctx == "for":
         res = ["l", [res]]
